@@ -90,6 +90,14 @@ func runC08(c *Ctx) {
 						if bt, ok := cl.Type().Underlying().(*types.Basic); ok && bt.Kind() == types.Bool {
 							return loadsGlobal(sf, 0)
 						}
+						// (name, shared bool) = helper(...)
+						if tup, ok := cl.Type().(*types.Tuple); ok {
+							for i := 0; i < tup.Len(); i++ {
+								if bt, ok := tup.At(i).Type().Underlying().(*types.Basic); ok && bt.Kind() == types.Bool {
+									return loadsGlobal(sf, 0)
+								}
+							}
+						}
 					}
 				}
 				return false
@@ -128,6 +136,53 @@ func runC08(c *Ctx) {
 		}
 		c.Sites["C08-R13#scope-chain-writes"] = n
 		c.floor("C08-R13", 2)
+		// (b) a builtin that is handed an object writes it in place: the object may be a module-level one
+		nb := 0
+		for _, fn := range c.srcFuncs(interpPkg) {
+			k := 0
+			eachInstr(fn, func(_ *ssa.BasicBlock, _ int, ins ssa.Instruction) {
+				var m ssa.Value
+				switch x := ins.(type) {
+				case *ssa.MapUpdate:
+					m = x.Map
+				case *ssa.Call:
+					if callName(x) == "builtin.delete" {
+						m = x.Call.Args[0]
+					}
+				}
+				if m == nil {
+					return
+				}
+				if mt, ok := m.Type().Underlying().(*types.Map); !ok || !dynIface(mt.Elem()) {
+					return
+				}
+				// the map is the program value itself: the result of asserting an evaluated expression
+				fromValue := derivesFromOnly(m, func(x ssa.Value) (bool, bool) {
+					if e, ok := x.(*ssa.Extract); ok && e.Index == 0 {
+						if ta, ok := e.Tuple.(*ssa.TypeAssert); ok {
+							return true, derivesFrom(ta.X, func(z ssa.Value) bool {
+								cl, ok := z.(*ssa.Call)
+								return ok && callName(cl) == interpPath+".Interpreter.EvaluateExpression"
+							})
+						}
+					}
+					switch x.(type) {
+					case *ssa.MakeMap, *ssa.Call, *ssa.Parameter, *ssa.FreeVar, *ssa.Lookup, *ssa.Const:
+						return true, false
+					}
+					return false, false
+				})
+				if !fromValue {
+					return
+				}
+				k++
+				nb++
+				q := &pathQuery{fn: fn, stop: consults, target: func(y ssa.Instruction) bool { return y == ins }}
+				hit, path := q.fromEntry()
+				c.ob("C08-R13", fnKey(fn)+"#builtin-writes-its-argument-in-place-"+itoa(k), ins.Pos(), hit == nil, "a builtin writes into the object it was handed, whatever scope the object lives in: for a module-level object (a constant holding options, a lookup table) the write is seen by every later request, and two requests doing it at once are a fatal concurrent map write", c.blockPath(path)...)
+			})
+		}
+		c.Sites["C08-R13#in-place-writes-by-builtins"] = nb
 	}
 	// ---- R1 shared write-set
 	c.rule("C08-R1", "WRS: no function of pkg/interpreter reachable from a request root stores to, updates a map of, or atomically modifies a field of the shared Interpreter / TypeChecker / ModuleResolver objects, defines or sets variables in Interpreter.globalEnv, or writes a package-level variable, unless a mutex of the owning object is held at that point")
